@@ -860,7 +860,9 @@ class Decompiler(object):
         test = decompiler.stack.pop()
         if_exp = ast.IfExp(test=simplify(test), body=simplify(then), orelse=None)
         if_exp.endpos = endpos
-        decompiler.targets.setdefault(endpos, if_exp)
+        # a clause inside the body may already have registered this position (`c and (d or e) if b else g`: `d` jumps to the
+        # end of the if-expression); it has been consumed by the body and cannot stop process_target any more
+        decompiler.set_target(endpos, if_exp)
         if decompiler.targets.get(endpos) is then:
             decompiler.targets[endpos] = if_exp
         return if_exp
